@@ -958,6 +958,8 @@ _C = "urwid/widget/columns.py"
 _G = "urwid/widget/grid_flow.py"
 _F = "urwid/widget/frame.py"
 MUTANTS = [
+    Mut("gridflow-empty-forwards-cursor-move", "urwid/widget/grid_flow.py", "GridFlow.move_cursor_to_coords", "        if not hasattr(self._w, \"move_cursor_to_coords\"):\n            return False  # no cells: the display widget is a plain Divider\n", "", "OPTCALL|widget.grid_flow.GridFlow.move_cursor_to_coords|GridFlow.move_cursor_to_coords: optional method forwarded to the wrapped widget unguarded"),
+    Mut("gridflow-empty-forwards-pref-col", "urwid/widget/grid_flow.py", "GridFlow.get_pref_col", "        if not hasattr(self._w, \"get_pref_col\"):\n            return None  # no cells: the display widget is a plain Divider\n", "", "OPTCALL|widget.grid_flow.GridFlow.get_pref_col|GridFlow.get_pref_col: optional method forwarded to the wrapped widget unguarded"),
     Mut("pending-focus-on-emptied-list", "urwid/widget/listbox.py", "ListBox._set_focus_complete", "        if new_focus_widget is None or focus_pos == position:", "        if focus_pos == position:", "EXC|widget.listbox.ListBox._set_focus_complete|pending focus change completed on an emptied list"),
     Mut("gridflow-focus-cell-truthy", "urwid/widget/grid_flow.py", "GridFlow._set_focus_from_display_widget", "        if c.focus is not None:  # an empty container cell is falsy but still the focus", "        if c.focus:", "SENTINEL|widget.grid_flow.GridFlow._set_focus_from_display_widget|widget c.focus tested for truthiness"),
     Mut("pile-widget-list-reads-focus-of-empty", "urwid/widget/pile.py", "urwid.widget.pile.Pile.widget_list", "        focus_position = self.focus_position if self.contents else 0\n", "        focus_position = self.focus_position\n", "GUARD|widget.pile.Pile.widget_list|widget_list setter: focus_position read without emptiness guard"),
